@@ -30,8 +30,9 @@ import (
 type tmpl struct {
 	name    string
 	typ     byte // 'i', 'l', 'a', 'r'
+	family  string // what the template exercises (the form name, or the interaction for composite templates)
 	src     string
-	core    bool // member of the subset used where the full alphabet is too large
+	rank    int // 2 = spine subset, 1 = core subset, 0 = the rest (subsets are used where the full alphabet is too large)
 	root    *node
 	holes   []*hole
 	defines bool
@@ -49,113 +50,100 @@ type envVar struct {
 }
 
 var templateSrc = []struct {
-	name, typ, src string
-	core bool
+	name, typ, family, src string
+	rank                   int // 2 = spine subset, 1 = core subset, 0 = the rest
 }{
-	// function calls: argument order
-	{"add", "i", "(+ ?i ?i)", true},
-	{"sub", "i", "(- ?i ?i ?i)", false},
-	{"lst", "l", "(list ?a ?a ?a)", true},
-	{"cns", "l", "(cons ?a ?l)", false},
-	{"len", "i", "(length ?l)", false},
-	// sequencing
-	{"pg0", "l", "(progn)", false},
-	{"pg1", "r", "(progn ?r)", false},
-	{"pg2", "r", "(progn ?a ?r)", true},
-	{"pr1", "r", "(prog1 ?r ?a ?a)", true},
-	// if / when / unless
-	{"ift", "r", "(if ?t ?r ?r)", true},
-	{"iff", "r", "(if ?f ?r ?r)", true},
-	{"i2t", "a", "(if ?t ?a)", false},
-	{"i2f", "a", "(if ?f ?a)", false},
-	{"wht", "a", "(when ?t ?a ?a)", true},
-	{"whf", "a", "(when ?f ?a ?a)", false},
-	{"unt", "a", "(unless ?t ?a ?a)", false},
-	{"unf", "a", "(unless ?f ?a ?a)", false},
-	// cond
-	{"cd1", "r", "(cond (?t ?a ?r) (?a ?r) (t ?r))", false},
-	{"cd2", "r", "(cond (?f ?a ?r) (?t ?r) (t ?r))", true},
-	{"cd3", "r", "(cond (?f ?r) (?f ?r) (t ?a ?r))", false},
-	{"cdn", "a", "(cond (?f ?a) (?f ?a))", false},
-	{"cdt", "a", "(cond (?f ?a) (?a) (t ?a))", false},
-	// case
-	{"cs1", "r", "(case ?1 (1 ?r) ((2 3) ?r) (otherwise ?r))", false},
-	{"cs3", "r", "(case ?3 (1 ?r) ((2 3) ?a ?r) (otherwise ?r))", true},
-	{"cso", "r", "(case ?9 (1 ?r) ((2 3) ?r) (otherwise ?a ?r))", false},
-	{"cst", "r", "(case ?9 (1 ?r) (t ?r))", false},
-	{"csn", "a", "(case ?9 (1 ?a) ((2 3) ?a))", false},
-	// and / or
-	{"an3", "r", "(and ?r ?r ?r)", true},
-	{"anf", "a", "(and ?a ?f ?a)", false},
-	{"an0", "a", "(and)", false},
-	{"or2", "r", "(or ?r ?r)", false},
-	{"orf", "a", "(or ?f ?a ?a)", true},
-	{"orn", "a", "(or ?f ?f)", false},
-	{"or0", "l", "(or)", false},
-	// let / let*
-	{"lt1", "r", "(let ((x ?i)) ?r+x)", false},
-	{"lt2", "r", "(let ((x ?i) (y ?i)) ?a+x+y ?r+x+y)", true},
-	{"lts", "l", "(let ((x ?i) (y ?i)) (let ((x ?i+x+y) (y ?i+x+y)) (list x y ?a+x+y)))", true},
-	{"ltn", "l", "(let (x (y)) (list x y ?a))", false},
-	{"ls2", "r", "(let* ((x ?i) (y ?i+x)) ?a+x+y ?r+x+y)", true},
-	{"lss", "l", "(let ((x ?i) (y ?i)) (let* ((x ?i+x+y) (y ?i+x+y)) (list x y ?a+x+y)))", false},
-	{"lsn", "l", "(let* (x (y)) (list x y ?a))", false},
-	{"ltv", "a", "(let ((x (values ?a ?a))) x)", false},
-	// setq
-	{"sq1", "l", "(let ((x ?i)) (list (setq x ?i+x) x ?a+x x))", true},
-	{"sq2", "l", "(let ((x ?i) (y ?i)) (list (setq x ?i+x+y y ?i+x+y) x y))", false},
-	{"sqo", "i", "(let ((x ?i)) (let ((y ?i+x)) (setq x (+ x y)) ?a+x+y) x)", true},
-	// closures
-	{"clc", "l", "(let ((x ?i)) (let ((f (lambda (a) (setq x (+ x a)) ?i+x+a*))) (list (funcall f ?i+x+f&) (funcall f ?i+x+f&) x)))", true},
-	{"cl2", "l", "(let ((x ?i)) (let ((f (lambda (a) (setq x (+ x a)))) (g (lambda (a) (* x a)))) (list (funcall f ?i) (funcall g ?i) (funcall f ?i) (funcall g ?i) x)))", false},
-	{"cls", "l", "(let ((x ?i)) (let ((f (lambda (a) (+ a x)))) (let ((x ?i+x+f&)) (list (funcall f ?i+x+f&) x))))", true},
-	{"clw", "l", "(let ((x ?i)) (let ((f (lambda (a) (setq x (+ x a))))) (list (let ((x ?i+x+f&)) (list (funcall f ?i+x+f&) x)) x)))", false},
-	{"cla", "l", "(progn (defun NAME (f x) (funcall f x)) (let ((x ?i)) (NAME (lambda (a) (list a x)) ?i+x)))", false},
-	{"clu", "i", "(progn (defun NAME (n) (lambda (a) (+ a n))) (let ((n ?i)) (funcall (NAME ?i+n) ?i+n)))", false},
-	{"ltf", "r", "(let ((f (lambda (a) ?i+a*))) ?r+f&)", true},
-	{"lmc", "r", "((lambda (a b) ?a+a+b* ?r+a+b*) ?i ?i)", true},
-	{"lmf", "r", "(funcall (lambda (a b) ?r+a+b*) ?i ?i)", false},
-	{"lms", "r", "(funcall #'(lambda (a) ?r+a*) ?i)", false},
-	// defun
-	{"dfc", "r", "(progn (defun NAME (a b) ?a+a+b* ?r+a+b*) (NAME ?i ?i))", true},
-	{"dfr", "l", "(progn (defun NAME (n) (if (= n 0) (list ?a+n*) (cons ?a+n* (NAME (- n 1))))) (NAME ?c))", true},
-	{"df2", "l", "(progn (defun NAME (a) ?a+a*) (list (NAME ?i) (NAME ?i)))", false},
-	{"dfs", "l", "(progn (defun NAME (a b) (list a b ?a+a+b*)) (list (funcall 'NAME ?i ?i) (funcall #'NAME ?i ?i) (apply #'NAME ?i (list ?i))))", false},
-	// loops
-	{"dol", "r", "(dolist (i ?l ?r) ?a+i?* ?a+i?*)", true},
-	{"dlr", "l", "(dolist (i ?l (list i ?a)) ?a+i?*)", false},
-	{"dot", "r", "(dotimes (i ?c ?r+i!) ?a+i!* ?a+i!*)", true},
-	{"dt0", "r", "(dotimes (i ?0 ?r+i!) ?a+i!*)", false},
-	{"dtn", "a", "(dotimes (i ?c) ?a+i!*)", false},
-	{"dop", "l", "(do ((u 0 (+ u 1)) (v ?i u)) ((<= 2 u) (list u v ?a+u+v)) ?a+u+v*)", true},
-	{"dok", "l", "(do ((u 0 (+ u 1)) (w ?i)) ((<= 2 u) (list u w)) ?a+u+w*)", false},
-	{"dos", "l", "(do* ((u 0 (+ u 1)) (v ?i (* u 10))) ((<= 2 u) (list u v ?a+u+v)) ?a+u+v*)", false},
-	{"dsk", "l", "(do* ((u 0 (+ u 1)) (w ?i)) ((<= 2 u) (list u w)) ?a+u+w*)", false},
-	{"dth", "r", "(do ((u 0 (+ u 1))) (?t+u ?a+u ?r+u) ?a+u*)", true},
-	{"dts", "l", "(do ((u 0 (+ u 1)) (v nil (<= 1 u))) (v (list u ?a+u)) ?a+u*)", false},
-	{"don", "a", "(do ((u 0 (+ u 1))) ((<= 2 u)) ?a+u*)", false},
-	// mapcar / apply / funcall
-	{"mp1", "l", "(mapcar (lambda (a) ?a+a?*) ?l)", true},
-	{"mp2", "l", "(mapcar (lambda (a b) (list a b ?a*)) ?l ?l)", false},
-	{"mps", "l", "(mapcar #'list ?l ?l)", false},
-	{"mpn", "l", "(mapcar (lambda (a) ?a*) ?n)", false},
-	{"apl", "l", "(apply (lambda (a b c) (list a b c ?a+a+b+c*)) ?i (list ?i ?i))", true},
-	{"aps", "i", "(apply #'+ ?i ?i (list ?i ?i))", false},
-	{"apq", "i", "(apply '+ (list ?i ?i))", false},
-	{"fcs", "i", "(funcall #'+ ?i ?i)", false},
-	{"fcq", "i", "(funcall '- ?i ?i)", false},
-	// multiple values
-	{"vl2", "a", "(values ?a ?a)", true},
-	{"vl1", "r", "(values ?r)", false},
-	{"vl0", "a", "(values)", false},
-	{"mvb", "l", "(multiple-value-bind (a b) ?a (list a b ?a+a?+b?))", true},
-	{"mv3", "l", "(multiple-value-bind (a b c) (values ?a ?a) (list a b c))", false},
-	{"mv1", "l", "(multiple-value-bind (a) (values ?a ?a) ?a (list a))", false},
-	{"vla", "l", "(list (values ?a ?a) ?a)", false},
-	// quote inside programs (the datum table proper is the q| case family)
-	{"qtl", "l", "'(1 a (b 2))", false},
-	{"qts", "a", "(quote foo)", false},
-	{"qtf", "l", "'(+ 1 2)", false},
+	{"add", "i", "+", "(+ ?i ?i)", 1},
+	{"sub", "i", "-", "(- ?i ?i ?i)", 0},
+	{"lst", "l", "list", "(list ?a ?a ?a)", 1},
+	{"cns", "l", "cons", "(cons ?a ?l)", 0},
+	{"len", "i", "length", "(length ?l)", 0},
+	{"pg0", "l", "progn", "(progn)", 0},
+	{"pg1", "r", "progn", "(progn ?r)", 0},
+	{"pg2", "r", "progn", "(progn ?a ?r)", 2},
+	{"pr1", "r", "prog1", "(prog1 ?r ?a ?a)", 1},
+	{"ift", "r", "if", "(if ?t ?r ?r)", 2},
+	{"iff", "r", "if", "(if ?f ?r ?r)", 1},
+	{"i2t", "a", "if", "(if ?t ?a)", 0},
+	{"i2f", "a", "if", "(if ?f ?a)", 0},
+	{"wht", "a", "when", "(when ?t ?a ?a)", 2},
+	{"whf", "a", "when", "(when ?f ?a ?a)", 0},
+	{"unt", "a", "unless", "(unless ?t ?a ?a)", 0},
+	{"unf", "a", "unless", "(unless ?f ?a ?a)", 0},
+	{"cd1", "r", "cond", "(cond (?t ?a ?r) (?a ?r) (t ?r))", 0},
+	{"cd2", "r", "cond", "(cond (?f ?a ?r) (?t ?r) (t ?r))", 2},
+	{"cd3", "r", "cond", "(cond (?f ?r) (?f ?r) (t ?a ?r))", 0},
+	{"cdn", "a", "cond", "(cond (?f ?a) (?f ?a))", 0},
+	{"cdt", "a", "cond-test-only-clause", "(cond (?f ?a) (?a) (t ?a))", 0},
+	{"cs1", "r", "case", "(case ?1 (1 ?r) ((2 3) ?r) (otherwise ?r))", 0},
+	{"cs3", "r", "case", "(case ?3 (1 ?r) ((2 3) ?a ?r) (otherwise ?r))", 1},
+	{"cso", "r", "case", "(case ?9 (1 ?r) ((2 3) ?r) (otherwise ?a ?r))", 0},
+	{"cst", "r", "case", "(case ?9 (1 ?r) (t ?r))", 0},
+	{"csn", "a", "case", "(case ?9 (1 ?a) ((2 3) ?a))", 0},
+	{"an3", "r", "and", "(and ?r ?r ?r)", 1},
+	{"anf", "a", "and", "(and ?a ?f ?a)", 0},
+	{"an0", "a", "and", "(and)", 0},
+	{"or2", "r", "or", "(or ?r ?r)", 0},
+	{"orf", "a", "or", "(or ?f ?a ?a)", 1},
+	{"orn", "a", "or", "(or ?f ?f)", 0},
+	{"or0", "l", "or", "(or)", 0},
+	{"lt1", "r", "let", "(let ((x ?i)) ?r+x)", 0},
+	{"lt2", "r", "let", "(let ((x ?i) (y ?i)) ?a+x+y ?r+x+y)", 2},
+	{"lts", "l", "let-shadowing", "(let ((x ?i) (y ?i)) (let ((x ?i+x+y) (y ?i+x+y)) (list x y ?a+x+y)))", 1},
+	{"ltn", "l", "let-no-init", "(let (x (y)) (list x y ?a))", 0},
+	{"ls2", "r", "let*", "(let* ((x ?i) (y ?i+x)) ?a+x+y ?r+x+y)", 2},
+	{"lss", "l", "let*-shadowing", "(let ((x ?i) (y ?i)) (let* ((x ?i+x+y) (y ?i+x+y)) (list x y ?a+x+y)))", 0},
+	{"lsn", "l", "let*-no-init", "(let* (x (y)) (list x y ?a))", 0},
+	{"ltv", "a", "let-init-multiple-values", "(let ((x ((lambda (a b) (values a b)) ?a ?a))) x)", 0},
+	{"sq1", "l", "setq", "(let ((x ?i)) (list (setq x ?i+x) x ?a+x x))", 2},
+	{"sq2", "l", "setq-pairs", "(let ((x ?i) (y ?i)) (list (setq x ?i+x+y y ?i+x+y) x y))", 0},
+	{"sqo", "i", "setq-outer-variable", "(let ((x ?i)) (let ((y ?i+x)) (setq x (+ x y)) ?a+x+y) x)", 1},
+	{"clc", "l", "closure-counter", "(let ((x ?i)) (let ((f (lambda (a) (setq x (+ x a)) ?i+x+a*))) (list (funcall f ?i+x+f&) (funcall f ?i+x+f&) x)))", 2},
+	{"cl2", "l", "closures-sharing-a-variable", "(let ((x ?i)) (let ((f (lambda (a) (setq x (+ x a)))) (g (lambda (a) (* x a)))) (list (funcall f ?i) (funcall g ?i) (funcall f ?i) (funcall g ?i) x)))", 0},
+	{"cls", "l", "closure-called-under-shadowing-let", "(let ((x ?i)) (let ((f (lambda (a) (+ a x)))) (let ((x ?i+x+f&)) (list (funcall f ?i+x+f&) x))))", 1},
+	{"clw", "l", "closure-assigns-under-shadowing-let", "(let ((x ?i)) (let ((f (lambda (a) (setq x (+ x a))))) (list (let ((x ?i+x+f&)) (list (funcall f ?i+x+f&) x)) x)))", 0},
+	{"cla", "l", "closure-passed-to-function-with-same-parameter-name", "(progn (defun NAME (f x) (funcall f x)) (let ((x ?i)) (NAME (lambda (a) (list a x)) ?i+x)))", 0},
+	{"clu", "i", "closure-returned-from-function", "(progn (defun NAME (n) (lambda (a) (+ a n))) (let ((n ?i)) (funcall (NAME ?i+n) ?i+n)))", 0},
+	{"ltf", "r", "let-lambda", "(let ((f (lambda (a) ?i+a*))) ?r+f&)", 2},
+	{"lmc", "r", "lambda-form-call", "((lambda (a b) ?a+a+b* ?r+a+b*) ?i ?i)", 2},
+	{"lmf", "r", "funcall-lambda", "(funcall (lambda (a b) ?r+a+b*) ?i ?i)", 0},
+	{"lms", "r", "funcall-sharp-quote-lambda", "(funcall #'(lambda (a) ?r+a*) ?i)", 0},
+	{"dfc", "r", "defun", "(progn (defun NAME (a b) ?a+a+b* ?r+a+b*) (NAME ?i ?i))", 2},
+	{"dfr", "l", "defun-recursive", "(progn (defun NAME (n) (if (= n 0) (list ?a+n*) (cons ?a+n* (NAME (- n 1))))) (NAME ?c))", 1},
+	{"df2", "l", "defun-called-twice", "(progn (defun NAME (a) ?a+a*) (list (NAME ?i) (NAME ?i)))", 0},
+	{"dfs", "l", "defun-called-through-designators", "(progn (defun NAME (a b) (list a b ?a+a+b*)) (list (funcall 'NAME ?i ?i) (funcall #'NAME ?i ?i) (apply #'NAME ?i (list ?i))))", 0},
+	{"dfv", "l", "defun-returning-values", "(progn (defun NAME (a b) (values a b ?a+a+b*)) (multiple-value-bind (a b c) (NAME ?i ?i) (list a b c)))", 0},
+	{"dol", "r", "dolist", "(dolist (i ?l ?r) ?a+i?* ?a+i?*)", 1},
+	{"dlr", "l", "dolist-result-form-reads-variable", "(dolist (i ?l (list i ?a)) ?a+i?*)", 0},
+	{"dot", "r", "dotimes", "(dotimes (i ?c ?r+i!) ?a+i!* ?a+i!*)", 2},
+	{"dt0", "r", "dotimes-zero", "(dotimes (i ?0 ?r+i!) ?a+i!*)", 0},
+	{"dtn", "a", "dotimes-no-result", "(dotimes (i ?c) ?a+i!*)", 0},
+	{"dop", "l", "do", "(do ((u 0 (+ u 1)) (v ?i u)) ((<= 2 u) (list u v ?a+u+v)) ?a+u+v*)", 2},
+	{"dok", "l", "do-variable-without-step", "(do ((u 0 (+ u 1)) (w ?i)) ((<= 2 u) (list u w)) ?a+u+w*)", 0},
+	{"dos", "l", "do*", "(do* ((u 0 (+ u 1)) (v ?i (* u 10))) ((<= 2 u) (list u v ?a+u+v)) ?a+u+v*)", 0},
+	{"dsk", "l", "do*-variable-without-step", "(do* ((u 0 (+ u 1)) (w ?i)) ((<= 2 u) (list u w)) ?a+u+w*)", 0},
+	{"dth", "r", "do-end-test", "(do ((u 0 (+ u 1))) (?t+u ?a+u ?r+u) ?a+u*)", 1},
+	{"dts", "l", "do-end-test-is-a-variable", "(do ((u 0 (+ u 1)) (v nil (<= 1 u))) (v (list u ?a+u)) ?a+u*)", 0},
+	{"don", "a", "do-no-result", "(do ((u 0 (+ u 1))) ((<= 2 u)) ?a+u*)", 0},
+	{"mp1", "l", "mapcar", "(mapcar (lambda (a) ?a+a?*) ?l)", 2},
+	{"mp2", "l", "mapcar-two-lists", "(mapcar (lambda (a b) (list a b ?a*)) ?l ?l)", 0},
+	{"mps", "l", "mapcar-sharp-quote", "(mapcar #'list ?l ?l)", 0},
+	{"mpn", "l", "mapcar-over-nil", "(mapcar (lambda (a) ?a*) ?n)", 0},
+	{"apl", "l", "apply", "(apply (lambda (a b c) (list a b c ?a+a+b+c*)) ?i (list ?i ?i))", 1},
+	{"aps", "i", "apply-sharp-quote", "(apply #'+ ?i ?i (list ?i ?i))", 0},
+	{"apq", "i", "apply-quoted-symbol", "(apply '+ (list ?i ?i))", 0},
+	{"fcs", "i", "funcall-sharp-quote", "(funcall #'+ ?i ?i)", 0},
+	{"fcq", "i", "funcall-quoted-symbol", "(funcall '- ?i ?i)", 0},
+	{"vl2", "a", "function-returning-two-values", "((lambda (a b) (values a b)) ?a ?a)", 2},
+	{"vl1", "r", "function-returning-one-value-via-values", "((lambda (a) (values a)) ?r)", 0},
+	{"vl0", "a", "function-returning-no-values", "((lambda () (values)))", 0},
+	{"mvb", "l", "multiple-value-bind", "(multiple-value-bind (a b) ?a (list a b ?a+a?+b?))", 2},
+	{"mv3", "l", "multiple-value-bind-fewer-values", "(multiple-value-bind (a b c) (values ?a ?a) (list a b c))", 0},
+	{"mv1", "l", "multiple-value-bind-more-values", "(multiple-value-bind (a) (values ?a ?a) ?a (list a))", 0},
+	{"vla", "l", "values-as-argument", "(list ((lambda (a b) (values a b)) ?a ?a) ?a)", 0},
+	{"qtl", "l", "quote", "'(1 a (b 2))", 0},
+	{"qts", "a", "quote", "(quote foo)", 0},
+	{"qtf", "l", "quote", "'(+ 1 2)", 0},
 }
 
 var (
@@ -165,7 +153,7 @@ var (
 
 func init() {
 	for _, ts := range templateSrc {
-		t := &tmpl{name: ts.name, typ: ts.typ[0], src: ts.src, core: ts.core}
+		t := &tmpl{name: ts.name, typ: ts.typ[0], family: ts.family, src: ts.src, rank: ts.rank}
 		t.root = parseSexpr(ts.src)
 		t.collect(t.root)
 		if tmplByName[t.name] != nil || len(t.name) != 3 {
@@ -459,9 +447,10 @@ func valid(t *term, req byte, sc scope) bool {
 
 // genOpts bounds the enumeration.
 type genOpts struct {
-	coreFrom int  // templates at nesting depth >= coreFrom (root = 1) come from the core subset only; 0 = never
-	spine    bool // at most one non-default hole per node ("spines")
-	maxDepth int
+	coreFrom  int  // templates at nesting depth >= coreFrom (root = 1) come from the core subset only; 0 = never
+	spineFrom int  // templates at nesting depth >= spineFrom come from the spine subset only; 0 = never
+	spine     bool // at most one non-default hole per node ("spines")
+	maxDepth  int
 }
 
 type generator struct {
@@ -507,7 +496,10 @@ func (g *generator) gen(req byte, sc scope, dev, depth int, emit func(string)) {
 		if !fits(tp.typ, req) || (tp.defines && sc.rep) {
 			continue
 		}
-		if g.opts.coreFrom != 0 && g.opts.coreFrom <= depth && !tp.core {
+		if g.opts.coreFrom != 0 && g.opts.coreFrom <= depth && tp.rank < 1 {
+			continue
+		}
+		if g.opts.spineFrom != 0 && g.opts.spineFrom <= depth && tp.rank < 2 {
 			continue
 		}
 		if len(tp.holes) == 0 {
@@ -684,6 +676,9 @@ func (p *program) build(t *term, req byte, h *hole) *node {
 			return n
 		case 'l':
 			if 0 < len(n.l) && n.l[0].isSym("quote") {
+				if len(n.l) == 2 && n.l[1].isSym("NAME") {
+					return &node{kind: 'l', short: n.short, l: []*node{n.l[0], nSym(name)}}
+				}
 				return n
 			}
 			c := &node{kind: 'l', short: n.short, l: make([]*node, len(n.l))}
